@@ -1,16 +1,23 @@
 /-
 C06  After the last repair the network returns to normal and shedding stops.
 
-Proved: the normal configuration is a fixed point of a quiet increment, for every configuration
-and step; a running sectioning timer reaches zero after exactly ⌈T/dt⌉ quiet control passes
+Proved, for every reachable state of every well-formed configuration (manual and ICT-based control):
+a section is out of service only while it contains a failed line; hence once every line is repaired
+every section is back in service and no controller lists a failed section
+(`out_of_service_only_with_reason`, `all_repaired_all_in_service`; second inductive invariant,
+`Lemmas/ControlLiveL.lean`).  Proved: the normal configuration is a fixed point of a quiet
+increment, for every configuration and step; a running sectioning timer reaches zero after exactly ⌈T/dt⌉ quiet control passes
 (closed form), and the parent timer handed to a microgrid elapses in step with it.
 NOT proved (stated): `ReturnsToNormal` — from every reachable state without failed lines the
-normal configuration is reached within the stated number of quiet increments.  The check
+normal configuration (`isNormal`) is reached within the stated number of quiet increments.
+(`not_back_to_initial_state`: the stronger "back to the initial state" is false — remaining outage
+times of healthy lines of a flagged section keep the added sectioning time.)  The check
 decides it on every generated history (model and implementation) by running the quiet tail.
 -/
 import Relsad.Model.Control
 import Relsad.Lemmas.ControlL
 import Relsad.Props.C05
+import Relsad.Lemmas.ControlLiveL
 import Mathlib.Algebra.Order.Field.Rat
 import Mathlib.Tactic.Linarith
 import Mathlib.Tactic.Ring
@@ -19,9 +26,21 @@ import Mathlib.Tactic.Positivity
 namespace Relsad.C06
 open Relsad.Control
 
-/-- full statement (not proved): bounded return to the normal configuration -/
+/-- full statement (not proved): bounded return to the normal configuration (`isNormal`: every breaker and
+disconnector closed, every line and section in service, nothing failed, timers run out, no failed-section entries) -/
 def ReturnsToNormal (C : Cfg) (dt : ℚ) (bound : ℕ) : Prop :=
-  ∀ s, C05.Reach C s → s.failed.all (!·) = true → ∃ k, k ≤ bound ∧ ((fun s => step C s dt)^[k] s) = St.init C
+  ∀ s, C05.Reach C s → s.failed.all (!·) = true → ∃ k, k ≤ bound ∧ isNormal C ((fun s => step C s dt)^[k] s) = true
+
+/-- The stronger reading "returns to the *initial state*" is false, in the model and in the implementation alike: the
+sectioning time is added to the remaining outage time of every line of a flagged section, healthy ones included, and a
+healthy line never counts it down.  Witness: breaker line L0 and L1 in one section, fault on L1. -/
+theorem not_back_to_initial_state :
+    let C : Cfg := { lines := [⟨0, some 0, [], 0⟩, ⟨0, none, [], 0⟩], disconLine := [], cbLine := [0],
+                     secs := [⟨[0, 1], [.breaker 0]⟩], nets := [⟨0, 0, [0, 1], [0], [], none, none⟩], T := 1 }
+    let s := ((fun s => step C s 1)^[6]) (lineFail C (St.init C) 1 2)
+    isNormal C s = true ∧ s.rem = [1, 0] ∧ s.rem ≠ (St.init C).rem := by
+  intro C s
+  refine ⟨by decide +kernel, by decide +kernel, by decide +kernel⟩
 
 private theorem lineUpdate_init (C : Cfg) (l : Nat) (dt : ℚ) : lineUpdate C (St.init C) l dt = St.init C := by
   unfold lineUpdate
@@ -134,5 +153,62 @@ theorem timer_out_iff (T dt : ℚ) (hdt : 0 < dt) (k : ℕ) :
     have := (timer_countdown T dt hdt k).1 (not_le.mp hc)
     rw [this] at h; linarith [not_le.mp hc]
   · exact (timer_countdown T dt hdt k).2
+
+
+/-! ### sections are out of service only for a reason (all reachable states) -/
+
+theorem reach_both (C : Cfg) (w : WF C) : ∀ s, C05.ReachA C s → Both C s := by
+  intro s hs
+  induction hs with
+  | init => exact Both.init w
+  | fail s l rep _ hl _ ih => exact ih.afterFail w l hl rep
+  | step s dt _ _ ih => exact ih.step w dt
+  | stepA s dt cm _ _ ih => exact ih.stepA w dt cm
+
+theorem reach_check_down (C : Cfg) : ∀ s, C05.ReachA C s → ∀ m, m < C.nets.length → gb s.check m = false := by
+  intro s hs
+  induction hs with
+  | init => intro m _; exact gb_map_const _ _
+  | fail s l rep _ _ _ ih => intro m hm; rw [check_lineFail]; exact ih m hm
+  | step s dt _ _ _ => intro m hm; exact step_check_down C s dt m hm
+  | stepA s dt cm _ _ _ => intro m hm; exact stepA_check_down C s dt cm m hm
+
+/-- every manual-only history is also a history of the mixed system -/
+theorem reach_to_reachA (C : Cfg) : ∀ s, C05.Reach C s → C05.ReachA C s := by
+  intro s hs
+  induction hs with
+  | init => exact .init
+  | fail s l rep _ hl hf ih => exact .fail s l rep ih hl hf
+  | step s dt _ hdt ih => exact .step s dt ih hdt
+
+/-- **A section is out of service only while it contains a failed line** — at every reachable state (after any
+sequence of faults and manual / automatic increments) of every well-formed configuration. -/
+theorem out_of_service_only_with_reason (C : Cfg) (hC : wfB C = true) (s : St) (hs : C05.ReachA C s)
+    (n : Nat) (hn : n < C.nets.length) (k : Nat) (hk : k ∈ (netOf C n).secs) (hout : gb s.secConn k = false) :
+    ∃ l ∈ (secOf C k).lines, gb s.failed l = true := by
+  have b := reach_both C (WF.of_wfB C hC) s hs
+  rcases b.inv2.why n hn k hk hout with h | h
+  · exact h
+  · rw [reach_check_down C s hs n hn] at h; exact absurd h (by simp)
+
+/-- **Once every line is repaired, every section is back in service and no controller lists a failed section.** -/
+theorem all_repaired_all_in_service (C : Cfg) (hC : wfB C = true) (s : St) (hs : C05.ReachA C s)
+    (hrep : ∀ l, gb s.failed l = false) :
+    (∀ n, n < C.nets.length → ∀ k ∈ (netOf C n).secs, gb s.secConn k = true) ∧
+    (∀ n, n < C.nets.length → s.failedSecs.getD n [] = []) := by
+  have b := reach_both C (WF.of_wfB C hC) s hs
+  have h1 : ∀ n, n < C.nets.length → ∀ k ∈ (netOf C n).secs, gb s.secConn k = true := by
+    intro n hn k hk
+    cases hx : gb s.secConn k
+    · obtain ⟨l, _, hfl⟩ := out_of_service_only_with_reason C hC s hs n hn k hk hx
+      rw [hrep l] at hfl; exact absurd hfl (by simp)
+    · rfl
+  refine ⟨h1, ?_⟩
+  intro n hn
+  rw [List.eq_nil_iff_forall_not_mem]
+  intro k hk
+  have h0 := b.inv2.listed n hn k hk
+  rw [h1 n hn k (b.inv.fs n hn k hk)] at h0
+  exact absurd h0 (by simp)
 
 end Relsad.C06
